@@ -549,3 +549,185 @@ def _chunks_next(w, st, fr, path, targs, args, dty):
     if c.is_const():
         return take(st) if c.val else NONE
     return ForkValues([(c, 1, take), (c, 0, NONE)])
+
+
+@builtin("core::str::traits::<impl core::cmp::PartialEq for str>::eq", "core::str::<impl str>::eq")
+def _str_eq(w, st, fr, path, targs, args, dty):
+    """string comparison against a literal: an uninterpreted predicate of (left, literal)"""
+    def lit(a):
+        if isinstance(a, Ref):
+            v = w.load(st, a.obj, a.proj)
+            if isinstance(v, Agg) and v.kind == ("array",) and all(isinstance(x, T) and x.is_const() for x in v.fields):
+                return bytes(x.val for x in v.fields).decode("latin-1")
+        return None
+    l0, l1 = lit(args[0]), lit(args[1])
+    if l0 is not None and l1 is not None:
+        return tm.TRUE if l0 == l1 else tm.FALSE
+    other = args[1] if l0 is not None else args[0]
+    name = getattr(other, "name", None) or (repr(other.obj) if isinstance(other, Ref) else repr(other))
+    return tm.sym("streq(%s,%r)" % (name, l0 if l0 is not None else l1), 1)
+
+
+@builtin("alloc::vec::from_elem")
+def _from_elem(w, st, fr, path, targs, args, dty):
+    elem, n = args[0], args[1]
+    if not isinstance(n, T):
+        return NOT_HANDLED
+    name = "vec%d" % len(st.trace)
+    ety = targs[0] if targs else ("int", 8, False, False)
+    from .walk import Effect
+    st.trace.append(Effect(path, tuple(args), None, None, fr.fn.path, len(st.frames)))
+    return SymArr(name, ety, n)
+
+
+@builtin("alloc::vec::Vec::<T, A>::len", "alloc::vec::Vec::<T>::len")
+def _vec_len(w, st, fr, path, targs, args, dty):
+    a = args[0]
+    if isinstance(a, Ref):
+        v = w.load(st, a.obj, a.proj)
+        if isinstance(v, SymObj):
+            v = w.materialise(v, st)
+            w.store_to(st, a.obj, a.proj, v)
+        if isinstance(v, SymArr):
+            return v.length
+    return NOT_HANDLED
+
+
+@builtin("<alloc::vec::Vec<T, A> as core::ops::Deref>::deref", "<alloc::vec::Vec<T, A> as core::ops::DerefMut>::deref_mut",
+         "alloc::vec::Vec::<T, A>::as_slice", "alloc::vec::Vec::<T, A>::as_mut_slice")
+def _vec_deref(w, st, fr, path, targs, args, dty):
+    a = args[0]
+    if isinstance(a, Ref):
+        v = w.load(st, a.obj, a.proj)
+        if isinstance(v, SymObj):
+            v = w.materialise(v, st)
+            w.store_to(st, a.obj, a.proj, v)
+        if isinstance(v, SymArr):
+            return Ref(a.obj, a.proj, a.mut, v.length)
+    return NOT_HANDLED
+
+
+@builtin("alloc::string::String::as_str", "<alloc::string::String as core::ops::Deref>::deref")
+def _string_as_str(w, st, fr, path, targs, args, dty):
+    a = args[0]
+    if isinstance(a, Ref):
+        v = w.load(st, a.obj, a.proj)
+        nm = getattr(v, "name", None) or repr(a.obj)
+        return Opaque("str(%s)" % nm)
+    return NOT_HANDLED
+
+
+def _index_common(w, st, fr, path, targs, args, dty, mut):
+    base, idx = args[0], args[1]
+    if not isinstance(base, Ref):
+        return NOT_HANDLED
+    tgt = w.load(st, base.obj, base.proj)
+    if isinstance(tgt, SymObj):
+        tgt = w.materialise(tgt, st)
+        w.store_to(st, base.obj, base.proj, tgt)
+    ln = base.meta
+    if ln is None:
+        if isinstance(tgt, Agg) and tgt.kind == ("array",):
+            ln = K(len(tgt.fields), 64)
+        elif isinstance(tgt, SymArr):
+            ln = tgt.length
+    if ln is None:
+        return NOT_HANDLED
+
+    def site(kind, cond):
+        c = w.simplify(st, cond)
+        if c.is_const():
+            if c.val == 0:
+                return False
+            return True
+        st.sites.append({"kind": "slice:" + kind, "fn": fr.fn.path, "loc": "?", "cond": c, "expected": 1,
+                         "stack": [f.fn.path for f in st.frames], "len": ln})
+        w.assume(st, c, 1)
+        return True
+    if isinstance(idx, T):
+        if not site("index", tm.cmp("ult", idx, ln)):
+            return Diverge("index out of bounds")
+        i = w.simplify(st, idx)
+        return Ref(base.obj, base.proj + ((("i", i.val),) if i.is_const() else (("ix", i),)), mut)
+    if isinstance(idx, Agg) and idx.kind[0] == "adt":
+        k = idx.kind[1].split("::")[-1]
+        z = K(0, 64)
+        if k == "RangeFull":
+            s, e = z, ln
+        elif k == "RangeTo":
+            s, e = z, idx.fields[0]
+        elif k == "RangeFrom":
+            s, e = idx.fields[0], ln
+        elif k == "Range":
+            s, e = idx.fields[0], idx.fields[1]
+        else:
+            return NOT_HANDLED
+        if not (isinstance(s, T) and isinstance(e, T)):
+            return NOT_HANDLED
+        if not site("range-end", tm.cmp("ule", e, ln)):
+            return Diverge("range end out of bounds")
+        if not site("range-order", tm.cmp("ule", s, e)):
+            return Diverge("range start > end")
+        n = tm.binop("sub", e, s)
+        if s.is_const() and s.val == 0 and isinstance(tgt, (Agg, SymArr)):
+            # prefix view of the same object
+            return Ref(base.obj, base.proj, mut, n)
+        oid = ("sub", len(st.trace), tm.show(s))
+        name = getattr(tgt, "name", "slice")
+        ety = tgt.ety if isinstance(tgt, SymArr) else ("int", 8, False, False)
+        st.store[oid] = SymArr("%s[%s..]" % (name, tm.show(s)), ety, n)
+        return Ref(oid, (), mut, n)
+    return NOT_HANDLED
+
+
+@builtin("<alloc::vec::Vec<T, A> as core::ops::Index<I>>::index", "core::slice::index::<impl core::ops::Index<I> for [T]>::index",
+         "core::array::<impl core::ops::Index<I> for [T; N]>::index")
+def _index(w, st, fr, path, targs, args, dty):
+    return _index_common(w, st, fr, path, targs, args, dty, False)
+
+
+@builtin("<alloc::vec::Vec<T, A> as core::ops::IndexMut<I>>::index_mut", "core::slice::index::<impl core::ops::IndexMut<I> for [T]>::index_mut",
+         "core::array::<impl core::ops::IndexMut<I> for [T; N]>::index_mut")
+def _index_mut(w, st, fr, path, targs, args, dty):
+    return _index_common(w, st, fr, path, targs, args, dty, True)
+
+
+@builtin("core::slice::<impl [T]>::copy_from_slice")
+def _copy_from_slice(w, st, fr, path, targs, args, dty):
+    dst, src = args[0], args[1]
+    if not (isinstance(dst, Ref) and isinstance(src, Ref)):
+        return NOT_HANDLED
+    ld_, ls = _arr_len(w, st, dst), _arr_len(w, st, src)
+    if ld_ is None or ls is None:
+        return NOT_HANDLED
+    c = w.simplify(st, tm.cmp("eq", ld_, ls))
+    if c.is_const() and c.val == 0:
+        return Diverge("copy_from_slice length mismatch")
+    if not c.is_const():
+        st.sites.append({"kind": "slice:copy-length", "fn": fr.fn.path, "loc": "?", "cond": c, "expected": 1,
+                         "stack": [f.fn.path for f in st.frames]})
+        w.assume(st, c, 1)
+    from .walk import Effect
+    st.trace.append(Effect(path, (dst, src), None, None, fr.fn.path, len(st.frames)))
+    sv = w.load(st, src.obj, src.proj)
+    dv = w.load(st, dst.obj, dst.proj)
+    if isinstance(dv, Agg) and isinstance(sv, Agg) and len(dv.fields) == len(sv.fields):
+        w.store_to(st, dst.obj, dst.proj, sv)
+    elif isinstance(dv, SymArr):
+        w.store_to(st, dst.obj, dst.proj, SymArr("copy(%s)" % getattr(sv, "name", "src"), dv.ety, dv.length))
+    elif isinstance(dv, Agg):
+        nm = getattr(sv, "name", "src")
+        w.store_to(st, dst.obj, dst.proj, Agg(dv.kind, dv.variant, [tm.sym("%s[%d]" % (nm, i), 8) for i in range(len(dv.fields))]))
+    return UNIT
+
+
+@builtin("alloc::slice::<impl [T]>::to_vec")
+def _to_vec(w, st, fr, path, targs, args, dty):
+    a = args[0]
+    if not isinstance(a, Ref):
+        return NOT_HANDLED
+    n = _arr_len(w, st, a)
+    v = w.load(st, a.obj, a.proj)
+    if n is None:
+        return NOT_HANDLED
+    return SymArr("vec(%s)" % getattr(v, "name", "slice"), ("int", 8, False, False), n)
